@@ -44,8 +44,19 @@ ASSUMPTIONS = ["numpy reductions/percentile are positively homogeneous of degree
 
 
 def trim_fn(ctx: Context) -> FuncInfo:
-    cands = [f for f in ctx.prog.functions.values() if f.cls is None and f.parent is None and any(isinstance(c, ast.Call) and (ctx.res.external_name(f, c) or "") == "numpy.percentile" for c in calls_in(f.node))
-             and any(isinstance(n, ast.While) for n in walk_no_nested(f.node))]
+    # role: a module-level routine with a search loop that returns (samples[<selection>], <weights>)
+    def returns_selection(f):
+        for r in walk_no_nested(f.node):
+            if isinstance(r, ast.Return) and isinstance(r.value, ast.Tuple) and len(r.value.elts) == 2 and isinstance(r.value.elts[0], ast.Subscript) \
+                    and isinstance(r.value.elts[0].value, ast.Name) and f.params and r.value.elts[0].value.id == f.params[0]:
+                return True
+        return False
+
+    cands = [f for f in ctx.prog.functions.values() if f.cls is None and f.parent is None and len(f.params) >= 2 and returns_selection(f)
+             and any(isinstance(n, (ast.While, ast.For)) for n in walk_no_nested(f.node))]
+    if len(cands) > 1:
+        pc = [f for f in cands if any(isinstance(c, ast.Call) and (ctx.res.external_name(f, c) or "") == "numpy.percentile" for c in calls_in(f.node))]
+        cands = pc or cands
     if len(cands) != 1:
         raise AnalysisError(f"C20: trimming routine (percentile search loop) not identified ({[c.short for c in cands]})")
     return cands[0]
@@ -381,6 +392,58 @@ def rule_f(ctx: Context, R: Reporter, vf: FuncInfo):
     R.check("C20.f", "the volume metric normalises its weights before use", normed, vf, vf.node, msg=f"{vf.short}: `{wp}` is never normalised", key="vv-normalises")
 
 
+def rule_g(ctx: Context, R: Reporter, vf: FuncInfo):
+    """C20.g  scale typing of the volume metric under x -> s * x (a necessary part
+    of invariance under invertible linear maps): the result has degree 0 and no
+    absolute constant meets a quantity that scales with the samples -- in
+    particular the rank test must use a relative tolerance."""
+    def rank(di, e, args):
+        a = args[0] if args else INV
+        tol = next((k for k in e.keywords if k.arg in ("tol", "rtol")), None)
+        if tol is not None and tol.arg == "tol" and a.kind == "deg" and a.k != 0 and not (isinstance(tol.value, ast.Constant) and tol.value.value is None):
+            tt = di.eval(tol.value, {})
+            if tt.kind == "deg" and tt.k != a.k:
+                return di._conflict(f"matrix_rank of a degree-{a.k} matrix with an absolute tolerance `{unparse(tol.value)}`: whether the covariance counts as singular "
+                                    f"depends on the units of the samples", e)
+        return INV
+
+    def inv_(di, e, args):
+        a = args[0] if args else INV
+        return deg(-a.k) if a.kind == "deg" else a
+
+    def clip(di, e, args):
+        a = args[0] if args else INV
+        if a.kind == "deg" and a.k != 0:
+            return di._conflict(f"clip of a degree-{a.k} quantity to absolute bounds", e)
+        return a
+
+    extra = {"numpy.linalg.matrix_rank": rank, "numpy.linalg.inv": inv_, "numpy.linalg.pinv": inv_, "numpy.clip": clip,
+             "numpy.trace": lambda di, e, a: a[0] if a else INV, "numpy.eye": lambda di, e, a: INV}
+    di = DegreeInterp(lambda c: ctx.res.external_name(vf, c), weight_params=(vf.params[0],), extra_degrees=extra)
+    rets = di.run(vf.node)
+    n = 0
+    for (r, t) in rets:
+        n += 1
+        if t.kind == "unknown":
+            if di.conflicts:
+                continue
+            raise AnalysisError(f"C20.g: return `{unparse(r)[:50]}` not typable under rescaling of the samples ({t.why})")
+        ok = t.kind == "deg" and t.k == 0
+        R.check("C20.g", "the volume metric has degree 0 under rescaling of the samples", ok, vf, r,
+                msg=f"{vf.short}: `{unparse(r)[:50]}` has type {t!r} under x -> s*x; invariance under linear maps requires degree 0", key=f"volume-scale-degree:{norm_text(r.value)[:30] if r.value is not None else ''}")
+    seen = set()
+    for c in di.conflicts:
+        k = norm_text(c.node)[:80] if c.node is not None else c.why
+        if k in seen:
+            continue
+        seen.add(k)
+        R.check("C20.g", "no absolute constant meets a quantity that scales with the samples", False, vf, c.node if c.node is not None else vf.node,
+                msg=f"{vf.short}: {c.why}", key=f"volume-scale-conflict:{k}")
+    if not di.conflicts:
+        R.check("C20.g", "scale typing of the volume metric closed without conflicts", True, vf, vf.node, key="volume-scale-clean")
+    R.floor("C20.g", "typed returns of the volume metric", n, 2)
+
+
 def run(ctx: Context, R: Reporter):
     tf = trim_fn(ctx)
     vf = volume_fn(ctx)
@@ -389,6 +452,7 @@ def run(ctx: Context, R: Reporter):
     R.guard(rule_d, ctx, R, [tf, vf] + ef)
     R.guard(rule_e, ctx, R)
     R.guard(rule_f, ctx, R, vf)
+    R.guard(rule_g, ctx, R, vf)
 
 
 def variants():
@@ -396,6 +460,9 @@ def variants():
 
     tl = "tempest/tools.py"
     return [
+        Variant("g-rank-absolute-tol", "bad", replace_expr(tl, "volume_variation", "np.linalg.matrix_rank(cov)", "np.linalg.matrix_rank(cov, tol=1e-8)"), ["C20.g"], quick=True),
+        Variant("g-rank-default-tol-benign", "benign", replace_expr(tl, "volume_variation", "np.linalg.matrix_rank(cov)", "np.linalg.matrix_rank(cov, tol=None)")),
+        Variant("b-argsort-rank-trim", "bad", replace_stmt(tl, "trim_weights", "mask = weights >= threshold", "mask = np.sort(np.argsort(weights)[int(np.ceil(p / 100 * (len(weights) - 1))):])"), ["C20.b"]),
         Variant("a-samples-other-mask", "bad", replace_expr(tl, "trim_weights", "samples[mask]", "samples[weights > threshold]"), ["C20.a"], quick=True),
         Variant("b-strict-mask", "bad", replace_expr(tl, "trim_weights", "weights >= threshold", "weights > threshold"), ["C20.b"], quick=True),
         Variant("c-loop-stops-early", "bad", replace_expr(tl, "trim_weights", "True", "i > 0"), ["C20.c"], quick=True),
